@@ -304,19 +304,103 @@ theorem zipPad_isSome_subst (σ : Subst) : ∀ (vs : List VId) (cs : List (Optio
 
 /-! ## one instantiated call -/
 
-/-- what `instantiate_sound` needs of the function and the call -/
-structure CallPre (f : Func) (cins : List (Option VId)) : Prop where
+theorem evalNodesF_append (I : Interp Val) (Φ : FEnv Val) (α : List (String × AttrData)) :
+    ∀ (a b : List FNode) (ρ : Env Val), evalNodesF I Φ α (a ++ b) ρ = evalNodesF I Φ α b (evalNodesF I Φ α a ρ)
+  | [], _, _ => by simp [evalNodesF]
+  | n :: a, b, ρ => by simp [evalNodesF, evalNodesF_append I Φ α a b]
+
+/-- an Identity node that is not a call binds its output to the value of its input, present or absent -/
+theorem evalNF_identity (I : Interp Val) (Φ : FEnv Val) (α : List (String × AttrData)) (hΦ : Φ identityOp = none)
+    (o : Option VId) (out : VId) (ρ : Env Val) :
+    evalNF I Φ α (.mk identityOp [] [o] [out] []) ρ = ρ.bind [out] [o.bind ρ] := by
+  simp only [evalNF, hΦ, evalArgs, List.map_cons, List.map_nil]
+  cases h : o.bind ρ with
+  | none => simp [trimV, nodeResultsF, identityOp, isIdentityOp]
+  | some a => simp [trimV, nodeResultsF, nodeResults, identityOp, isIdentityOp]
+
+theorem bind_single_self (ρ : Env Val) (out : VId) (x : Option Val) : ρ.bind [out] [x] out = x := by
+  simp [Env.bind]
+
+theorem bind_single_ne (ρ : Env Val) {out u : VId} (x : Option Val) (h : u ≠ out) : ρ.bind [out] [x] u = ρ u := by
+  simp [Env.bind, h]
+
+/-- the Identity nodes that forward returned function inputs: each replacement value holds what the value map
+    points to; nothing below `next` changes -/
+theorem fwdOuts_sound (I : Interp Val) (Φ : FEnv Val) (α : List (String × AttrData)) (hΦ : Φ identityOp = none)
+    (vm : VMap) : ∀ (vs produced : List VId) (next : Nat) (ρ : Env Val), VLt vm next →
+    (fwdOuts vm produced vs next).outvals.map (evalNodesF I Φ α (fwdOuts vm produced vs next).nodes ρ) =
+      vs.map (fun v => (mapV vm v).bind ρ) ∧
+    (∀ u, u < next → evalNodesF I Φ α (fwdOuts vm produced vs next).nodes ρ u = ρ u) ∧
+    next ≤ (fwdOuts vm produced vs next).next ∧
+    (∀ w ∈ (fwdOuts vm produced vs next).outvals, w < (fwdOuts vm produced vs next).next ∧
+      ((∃ v, mapV vm v = some w) ∨ next ≤ w))
+  | [], produced, next, ρ, _ => by simp [fwdOuts, evalNodesF]
+  | v :: vs, produced, next, ρ, hlt => by
+    have hlt1 : VLt vm (next + 1) := fun v w hw => Nat.lt_succ_of_lt (hlt v w hw)
+    have hstep : ∀ (x : Option Val) (produced' : List VId),
+        (fwdOuts vm produced' vs (next + 1)).outvals.map
+            (evalNodesF I Φ α (fwdOuts vm produced' vs (next + 1)).nodes (ρ.bind [next] [x])) =
+          vs.map (fun v => (mapV vm v).bind ρ) := by
+      intro x produced'
+      rw [(fwdOuts_sound I Φ α hΦ vm vs produced' (next + 1) (ρ.bind [next] [x]) hlt1).1]
+      apply List.map_congr_left
+      intro v' _
+      cases hm : mapV vm v' with
+      | none => rfl
+      | some w' =>
+        simp only [Option.bind]
+        exact bind_single_ne ρ x (Nat.ne_of_lt (hlt v' w' hm))
+    rw [fwdOuts]
+    split
+    · rename_i w hw
+      split
+      · obtain ⟨h1, h2, h3, h4⟩ := fwdOuts_sound I Φ α hΦ vm vs produced next ρ hlt
+        refine ⟨?_, h2, h3, ?_⟩
+        · simp only [List.map_cons, h1, hw, Option.bind]
+          rw [h2 w (hlt v w hw)]
+        · intro u hu
+          rcases List.mem_cons.1 hu with hu | hu
+          · subst hu; exact ⟨Nat.lt_of_lt_of_le (hlt v u hw) h3, Or.inl ⟨v, hw⟩⟩
+          · exact h4 u hu
+      · obtain ⟨_, h2, h3, h4⟩ := fwdOuts_sound I Φ α hΦ vm vs (next :: produced) (next + 1)
+          (ρ.bind [next] [ρ w]) hlt1
+        simp only [evalNodesF, evalNF_identity I Φ α hΦ, Option.bind]
+        refine ⟨?_, ?_, Nat.le_of_succ_le h3, ?_⟩
+        · simp only [List.map_cons, hstep, hw, Option.bind]
+          rw [h2 next (Nat.lt_succ_self _), bind_single_self]
+        · intro u hu
+          rw [h2 u (Nat.lt_succ_of_lt hu), bind_single_ne ρ _ (Nat.ne_of_lt hu)]
+        · intro u hu
+          rcases List.mem_cons.1 hu with hu | hu
+          · subst hu; exact ⟨h3, Or.inr (Nat.le_refl _)⟩
+          · obtain ⟨a, b⟩ := h4 u hu
+            exact ⟨a, b.imp id Nat.le_of_succ_le⟩
+    · rename_i hw
+      obtain ⟨_, h2, h3, h4⟩ := fwdOuts_sound I Φ α hΦ vm vs produced (next + 1) (ρ.bind [next] [none]) hlt1
+      simp only [evalNodesF, evalNF_identity I Φ α hΦ, Option.bind]
+      refine ⟨?_, ?_, Nat.le_of_succ_le h3, ?_⟩
+      · simp only [List.map_cons, hstep, hw, Option.bind]
+        rw [h2 next (Nat.lt_succ_self _), bind_single_self]
+      · intro u hu
+        rw [h2 u (Nat.lt_succ_of_lt hu), bind_single_ne ρ _ (Nat.ne_of_lt hu)]
+      · intro u hu
+        rcases List.mem_cons.1 hu with hu | hu
+        · subst hu; exact ⟨h3, Or.inr (Nat.le_refl _)⟩
+        · obtain ⟨a, b⟩ := h4 u hu
+          exact ⟨a, b.imp id Nat.le_of_succ_le⟩
+
+/-- what `instantiate_sound` needs of the function -/
+structure CallPre (f : Func) : Prop where
   nostoch : opsAllNodes (fun op => !isStochasticOp op) f.nodes = true
   subinits : subInitsOKNodes f.nodes = true
-  closed : closedG (eraseG f.graph) = true
-  passthrough : ∀ v ∈ f.outputs, (mapV (zipPad f.inputs cins) v).isSome = true ∨ v ∉ f.inputs
+  closed : closedNodes (eraseNodes f.nodes) = true
 
 /-- evaluating the instantiated body in the caller's environment: the values that replace the call's
     outputs hold the results of the call; nothing below `next` changes; the new values are below the new
     `next`, and each of them is new or an input of the call -/
-theorem instantiate_sound (I : Interp Val) (Φ : FEnv Val) (α : List (String × AttrData)) (f : Func)
-    (cattrs : List (String × FAttr)) (cins : List (Option VId)) (next : Nat) (ρ : Env Val)
-    (hpre : CallPre f cins)
+theorem instantiate_sound (I : Interp Val) (Φ : FEnv Val) (α : List (String × AttrData)) (hΦ : Φ identityOp = none)
+    (f : Func) (cattrs : List (String × FAttr)) (cins : List (Option VId)) (next : Nat) (ρ : Env Val)
+    (hpre : CallPre f)
     (hnd : (cattrs.map Prod.fst).Nodup)
     (href : ∀ p ∈ cattrs, match p.2 with
       | .val _ => True
@@ -329,37 +413,33 @@ theorem instantiate_sound (I : Interp Val) (Φ : FEnv Val) (α : List (String ×
     (∀ w ∈ (instantiate f cattrs cins next).outvals, w < (instantiate f cattrs cins next).next ∧
       (w ∈ cins.filterMap id ∨ next ≤ w)) := by
   have hA := attrSim_call α f.params cattrs hnd href
-  have hcl := hpre.closed
-  simp only [Func.graph, eraseG, closedG, Bool.and_eq_true, List.all_eq_true, List.map_nil, List.append_nil] at hcl
   have hvlt : VLt (zipPad f.inputs cins) next := fun v w hw => hins w (zipPad_range _ _ v w hw)
   have hvf : VFrom (· ∈ cins.filterMap id) next (zipPad f.inputs cins) :=
     fun v w hw => Or.inl (zipPad_range _ _ v w hw)
-  obtain ⟨k1, k2, k3, k4, k5, k6⟩ := cloneNodes_sim I Φ α (bindParams f.params (resolveAttrs α cattrs))
+  obtain ⟨k1, k2, k3, k4, _, k6⟩ := cloneNodes_sim I Φ α (bindParams f.params (resolveAttrs α cattrs))
     (attrMap f.params cattrs) hA (· ∈ cins.filterMap id) next f.nodes (zipPad f.inputs cins) next
     (Env.empty.bind f.inputs (evalArgs ρ cins)) ρ (simT_zipPad ρ f.inputs cins) hvlt hvf (Nat.le_refl _)
-    hpre.nostoch hpre.subinits hcl.2
-  have hsome : ∀ v ∈ f.outputs, (mapV (cloneNodes (attrMap f.params cattrs) (zipPad f.inputs cins) next f.nodes).2.1 v).isSome = true := by
-    intro v hv
-    refine k5 v ?_
-    have h1 := hcl.1 v hv
-    simp only [List.contains_eq_mem, decide_eq_true_eq, List.mem_append] at h1
-    rcases h1 with h1 | h1
-    · rcases hpre.passthrough v hv with h2 | h2
-      · exact Or.inl h2
-      · exact absurd h1 h2
-    · exact Or.inr h1
-  refine ⟨?_, k4, k3, ?_⟩
-  · simp only [funcDen, instantiate, bind_trimV, List.map_map]
+    hpre.nostoch hpre.subinits hpre.closed
+  obtain ⟨f1, f2, f3, f4⟩ := fwdOuts_sound I Φ α hΦ
+    (cloneNodes (attrMap f.params cattrs) (zipPad f.inputs cins) next f.nodes).2.1 f.outputs
+    (outsTopF (cloneNodes (attrMap f.params cattrs) (zipPad f.inputs cins) next f.nodes).1)
+    (cloneNodes (attrMap f.params cattrs) (zipPad f.inputs cins) next f.nodes).2.2
+    (evalNodesF I Φ α (cloneNodes (attrMap f.params cattrs) (zipPad f.inputs cins) next f.nodes).1 ρ) k2
+  refine ⟨?_, ?_, Nat.le_trans k3 f3, ?_⟩
+  · simp only [funcDen, instantiate, bind_trimV, evalNodesF_append]
+    rw [f1]
     apply List.map_congr_left
-    intro v hv
-    obtain ⟨w, hw⟩ := Option.isSome_iff_exists.1 (hsome v hv)
-    simp only [Function.comp]
-    rw [k1 v, hw]; rfl
+    intro v _
+    exact k1 v
   · intro w hw
-    simp only [instantiate, List.mem_map] at hw
-    obtain ⟨v, hv, rfl⟩ := hw
-    obtain ⟨w, hw⟩ := Option.isSome_iff_exists.1 (hsome v hv)
-    simp only [instantiate, hw, Option.getD_some]
-    exact ⟨k2 v w hw, k6 v w hw⟩
+    simp only [instantiate, evalNodesF_append]
+    rw [f2 w (Nat.lt_of_lt_of_le hw k3), k4 w hw]
+  · intro w hw
+    simp only [instantiate] at hw ⊢
+    obtain ⟨a, b⟩ := f4 w hw
+    refine ⟨a, ?_⟩
+    rcases b with ⟨v, hv⟩ | b
+    · exact k6 v w hv
+    · exact Or.inr (Nat.le_trans k3 b)
 
 end IrVerif.Inline
